@@ -139,6 +139,48 @@ async def search(ctx):
         run_.observers = [Observer(ctx, run_)]
         async with contextlib.AsyncExitStack() as cm:
             await run_.generate(cm, 70)
+        flag_discipline(ctx, run_)
+
+
+# The strict form of the discipline (no allowance for a flagged consumer) is not what the code
+# maintains; until the driver evaluates the weak form it is only counted.
+STRICT_DISCIPLINE_IS_A_FINDING = False
+
+
+def flag_discipline(ctx, run_):
+    """The hypothesis of the worklist theorems (`MetaAfter.CacheInvAfter`: every attached step that is
+    not flagged `_check_after` satisfies its local equation) evaluated on the MODEL state after every
+    request of a generated history (the model state equals the database by the correspondence).
+    A sampled test of a hypothesis, not a proof of it."""
+    import common
+
+    lines = []
+    for ln in run_.lines:
+        lines += [ln, "k cacheinv"]
+    ans = common.run_driver(lines)
+    restarting = False
+    for i, (ln, op) in enumerate(zip(run_.lines, run_.ops)):
+        if not run_.legal[i]:
+            break  # a request the director cannot deliver: no claim about the rest
+        if op in ("retarget", "check_consistency"):
+            restarting = True
+        elif op == "reconcile" and run_.impl[i].startswith("ok"):
+            restarting = False
+        if ans[2 * i] != run_.impl[i]:
+            break  # the correspondence reports this; the model state is no longer the database
+        ctx.stats.count("model-flag-discipline-states")
+        if restarting:
+            continue
+        if ans[2 * i + 1] != "1":
+            ctx.stats.count("model-flag-discipline-false")
+            if not STRICT_DISCIPLINE_IS_A_FINDING:
+                continue
+            ctx.finding(Finding(PID, "flag-discipline:" + op,
+                                f"after '{kcorr.decode_line(ln)[:100]}' an attached step that is not flagged "
+                                f"_check_after no longer satisfies its local equation (CacheInvAfter is false)",
+                                {"requests": [kcorr.decode_line(x) for x in run_.lines[: i + 1]][-15:],
+                                 "protocol_lines": list(run_.lines[: i + 1])}))
+            break
 
 
 async def replay(ctx, detail):
